@@ -221,6 +221,31 @@ func genIngestSpec(r *rand.Rand, thorough bool) (*TableSpec, uint64, int, rune, 
 	}
 	t := GenTable(r, nCols, n, pk, mode)
 	tags := []string{}
+	if r.Intn(8) == 0 && nCols >= 2 && len(pk) != 1 && len(t.Rows) > 1 {
+		// composite (or absent) keys whose cells are prefixes of one another and hold the bytes a
+		// flattened key would use as separators (0x00, 0x01, 0x1f, tab): distinct keys, in an order
+		// that only a column-by-column comparison gets right
+		sepAlphabet := []string{"", "k", "k\x00", "\x00", "\x00b", "b", "k\x01", "k\x00b", "\x1f", "\t"}
+		kc := pk
+		if len(kc) == 0 {
+			kc = []int{0, 1}
+		}
+		pairs := r.Perm(len(sepAlphabet) * len(sepAlphabet))
+		for i := 0; i < len(t.Rows) && i < len(pairs); i++ {
+			t.Rows[i][kc[0]] = sepAlphabet[pairs[i]/len(sepAlphabet)]
+			t.Rows[i][kc[1]] = sepAlphabet[pairs[i]%len(sepAlphabet)]
+		}
+		if len(pk) == 0 && nCols == 2 {
+			// no row may consist of empty cells only (a blank CSV line is not a record)
+			for _, row := range t.Rows {
+				if row[0] == "" && row[1] == "" {
+					row[1] = "\x00\x00"
+				}
+			}
+		}
+		r.Shuffle(len(t.Rows), func(i, j int) { t.Rows[i], t.Rows[j] = t.Rows[j], t.Rows[i] })
+		tags = append(tags, "separator-bytes-in-key")
+	}
 	if r.Intn(4) == 0 && len(t.Rows) > 0 {
 		e := make([]string, nCols)
 		if len(pk) > 0 {
